@@ -2,6 +2,7 @@ package schedsim
 
 import (
 	"fmt"
+	"os"
 	"runtime/debug"
 	"testing"
 	"testing/synctest"
@@ -43,6 +44,9 @@ func mustPass(t *testing.T, id string, cfg worldConfig, f func(w *world)) {
 	failure, script := runScripted(t, cfg, f)
 	if failure != "" {
 		t.Fatalf("VERIF-VIOLATION property=%s: %s\nscript:\n%s", id, failure, formatScript(script))
+	}
+	if os.Getenv("VERIF_SHOW_SCRIPT") != "" {
+		t.Logf("script:\n%s", formatScript(script))
 	}
 }
 
@@ -97,5 +101,54 @@ func TestC04RegressStaleChildPriority(t *testing.T) {
 		w.execute(w.templates[0], "", 0, "i/p", plan("e5", 0, false, false)) // attaches to executing e0: A/p and A now execute on 1 worker
 		w.next()
 		w.sync(w1, "idle", false, "") // A and B tie at (1+1)*2^0; B was served least recently -> e4
+	})
+}
+
+// Stickiness windows are per level: the window at level 1 starts when the
+// worker began serving its current level-1 invocation, not when it began
+// serving its level-0 invocation.
+func TestC04RegressPerLevelStickinessWindow(t *testing.T) {
+	cfg := worldConfig{Queues: []queueSpec{{Prefix: "", Platform: 0, Predeclared: true, SizeClasses: []uint32{1}, Stickiness: []int{100, 30}}}, InvDepth: 2, NActions: 6, NWorkers: 3}
+	mustPass(t, "C04", cfg, func(w *world) {
+		w.m.fair = true
+		w0, w1, w2 := w.workers[0], w.workers[1], w.workers[2]
+		w.next()
+		w.sync(w0, "idle", false, "")
+		w.next()
+		w.execute(w.templates[0], "", 0, "i/p", plan("a1", 0, false, false)) // t=0: handed to w0
+		w.next()
+		w.advance(time.Second)
+		w.next()
+		w.sync(w1, "idle", false, "")
+		w.next()
+		w.execute(w.templates[1], "", 0, "i/r", plan("b1", 0, false, false)) // t=1: handed to w1; i/r last served at 1
+		w.next()
+		w.advance(9 * time.Second)
+		w.next()
+		w.sync(w0, "completed", true, "ok") // t=10: w0 last served i/p
+		w.next()
+		w.advance(10 * time.Second)
+		w.next()
+		w.execute(w.templates[2], "", 0, "i/q", plan("a2", 0, false, false))
+		w.next()
+		w.sync(w0, "idle", false, "") // t=20: picks a2; level 0 retained, level-1 window restarts at 20
+		w.next()
+		w.advance(time.Second)
+		w.next()
+		w.sync(w2, "idle", false, "")
+		w.next()
+		w.execute(w.templates[3], "", 0, "i/q", plan("c1", 0, false, false)) // t=21: handed to w2; i/q last served at 21
+		w.next()
+		w.advance(4 * time.Second)
+		w.next()
+		w.sync(w0, "completed", true, "ok") // t=25: w0 last served i/q
+		w.next()
+		w.execute(w.templates[4], "", 0, "i/r", plan("a3", 0, false, false))
+		w.next()
+		w.execute(w.templates[5], "", 0, "i/q", plan("a4", 0, false, false))
+		w.next()
+		w.advance(15 * time.Second) // t=40: inside 20+30, outside 0+30
+		w.next()
+		w.sync(w0, "idle", false, "") // i/r and i/q tie (one executing worker each); i/r is least recently served, but sticky i/q is inside its window -> a4
 	})
 }
